@@ -75,6 +75,24 @@ def evaluate(case):
     try:
         dm = I.mk(case)
         dmaker = make(method)
+        import zlib as _z
+        if _z.crc32(repr((case["matrix"], method.get("name"))).encode()) % 4 == 0:
+            # the same method object has just answered the same numbers under OTHER names (relabelled, listed in
+            # reverse): the answer for this matrix must name this matrix's alternatives
+            try:
+                other = I.mkdm(dm.matrix.to_numpy()[::-1], list(dm.iobjectives.to_numpy()), weights=dm.weights.to_numpy(),
+                               alternatives=[f"other {i}" for i in range(len(dm.alternatives))],
+                               criteria=list(dm.criteria))
+                same = I.mkdm(dm.matrix.to_numpy(), list(dm.iobjectives.to_numpy()), weights=dm.weights.to_numpy(),
+                              alternatives=[f"w{i}" for i in range(len(dm.alternatives))], criteria=list(dm.criteria))
+                with I.quiet_fds():
+                    for d_ in (other, same):
+                        if method["name"] == "simus":
+                            dmaker.evaluate(d_, b=case.get("b"))
+                        else:
+                            dmaker.evaluate(d_)
+            except Exception:  # noqa: BLE001
+                pass
         if method["name"] == "simus":
             b = case.get("b")
             import zlib
